@@ -99,7 +99,7 @@ theorem write_footprint (f : FileH) (bs : List Nat) (d : Dev) (h : SimInv f d) (
   have hcsp := hg.cs_pos
   have hmod : f.offset % d.fs.clusterSize < d.fs.clusterSize := Nat.mod_lt _ hcsp
   by_cases hno : (absFile d.fs d.img f).writeLen bs.length = 0 ∨ (absFile d.fs d.img f).readCluster ≠ none
-  · obtain ⟨k, f', d', hr, _, hres, _, _, _, _, _, hdiff⟩ :=
+  · obtain ⟨k, f', d', hr, _, hres, _, _, _, _, _, hdiff, _⟩ :=
       write_sim_noalloc (fatAllocator d.fs.totalClusters d.fs.fsInfo.next) (tabView d.fs d.img) f bs d hfa hg hrep
         hwf hbytes hno
     rw [hr]
@@ -120,7 +120,7 @@ theorem write_footprint (f : FileH) (bs : List Nat) (d : Dev) (h : SimInv f d) (
       have : f.offset = (fileChain d.fs d.img f).length * d.fs.clusterSize := hend
       rw [this]; exact Nat.mul_mod_left _ _
     rcases write_sim_alloc f bs d hfa hg hrep hwf hinfo hbytes hrcn hw0 with
-      ⟨d', hr, _, _, _, _, _, hdiff⟩ | ⟨k, f', d', hr, hres, _, _, _, _, ⟨c, hsome, hdiff⟩, _, _⟩
+      ⟨d', hr, _, _, _, _, _, hdiff, _⟩ | ⟨k, f', d', hr, hres, _, _, _, _, ⟨c, hsome, hdiff⟩, _, _, _⟩
     · rw [hr]
       intro q hne
       exact Or.inl (hdiff q hne)
@@ -146,11 +146,45 @@ theorem write_footprint (f : FileH) (bs : List Nat) (d : Dev) (h : SimInv f d) (
 theorem truncate_footprint (f : FileH) (d : Dev) (h : SimInv f d) :
     ∀ q, (run f.truncate d).2.img.getByte q ≠ d.img.getByte q → MayTouchData d.fs d.img f q := by
   obtain ⟨hfa, hwf, hg, hrep, hinfo⟩ := h
-  obtain ⟨f', d', hr, _, _, _, _, _, hdiff, _, _⟩ := truncate_sim f d hfa hg hrep hwf hinfo
+  obtain ⟨f', d', hr, _, _, _, _, _, hdiff, _, _, _⟩ := truncate_sim f d hfa hg hrep hwf hinfo
   rw [hr]
   intro q hne
   rcases hdiff q hne with hs | ⟨x, hx, hfe⟩
   · exact Or.inl hs
   · exact Or.inr (Or.inr (Or.inr ⟨x, Or.inl hx, hfe⟩))
+
+/-- a cluster of the handle's chain, or a free cluster of the volume -/
+def OwnOrFree (fs : FsState) (img : Img) (f : FileH) (c : Nat) : Prop :=
+  c ∈ fileChain fs img f ∨ FreeCluster fs img c
+
+/-- **the write records of `File::write`**: the status byte, entry-window records (read-modify-write, one per FAT
+    copy) of clusters of the chain or of clusters that were free, and one piece of such a cluster -/
+theorem write_trace (f : FileH) (bs : List Nat) (d : Dev) (h : SimInv f d) (hbytes : ∀ b ∈ bs, b < 256) :
+    Trace d.fs (OwnOrFree d.fs d.img f) (OwnOrFree d.fs d.img f) d (run (f.write bs) d).2 := by
+  obtain ⟨hfa, hwf, hg, hrep, hinfo⟩ := h
+  by_cases hno : (absFile d.fs d.img f).writeLen bs.length = 0 ∨ (absFile d.fs d.img f).readCluster ≠ none
+  · obtain ⟨k, f', d', hr, _, _, _, _, _, _, _, _, htr⟩ :=
+      write_sim_noalloc (fatAllocator d.fs.totalClusters d.fs.fsInfo.next) (tabView d.fs d.img) f bs d hfa hg hrep
+        hwf hbytes hno
+    rw [hr]
+    exact htr _ _ (fun x hx => Or.inl hx)
+  · have hrcn : (absFile d.fs d.img f).readCluster = none := by
+      cases hc : (absFile d.fs d.img f).readCluster with
+      | none => rfl
+      | some c => exact absurd (Or.inr (by rw [hc]; intro e; cases e)) hno
+    have hw0 : (absFile d.fs d.img f).writeLen bs.length ≠ 0 := fun h0 => hno (Or.inl h0)
+    rcases write_sim_alloc f bs d hfa hg hrep hwf hinfo hbytes hrcn hw0 with
+      ⟨d', hr, _, _, _, _, _, _, htr⟩ | ⟨k, f', d', hr, _, _, _, _, _, _, _, _, htr⟩
+    · rw [hr]; exact htr _ _
+    · rw [hr]
+      exact htr _ _ (fun x hx => Or.inl hx) (fun x h2 ht hf => ⟨Or.inr ⟨h2, ht, hf⟩, Or.inr ⟨h2, ht, hf⟩⟩)
+
+/-- **the write records of `File::truncate`**: the status byte and entry-window records of clusters of the chain -/
+theorem truncate_trace (f : FileH) (d : Dev) (h : SimInv f d) :
+    Trace d.fs (OwnOrFree d.fs d.img f) (OwnOrFree d.fs d.img f) d (run f.truncate d).2 := by
+  obtain ⟨hfa, hwf, hg, hrep, hinfo⟩ := h
+  obtain ⟨f', d', hr, _, _, _, _, _, _, _, _, htr⟩ := truncate_sim f d hfa hg hrep hwf hinfo
+  rw [hr]
+  exact htr _ _ (fun x hx => Or.inl hx)
 
 end FatVerif.FileSim
